@@ -517,7 +517,13 @@ class FileDataUnit(PduUnitBase):
 
     def _observe(self, o):
         sm = o.segment_metadata
-        return (int(o.offset), bytes(o.file_data), None if sm is None else (int(sm.record_cont_state), bytes(sm.metadata)))
+        view = None if sm is None else (int(sm.record_cont_state), bytes(sm.metadata))
+        # the PDU's own accessors for the same facts (presence flag, continuation state) must tell the same story
+        rcs = o.record_cont_state
+        acc = (bool(o.has_segment_metadata), None if rcs is None else int(rcs))
+        if acc != (sm is not None, None if sm is None else int(sm.record_cont_state)):
+            view = ("accessors-disagree", acc, view)
+        return (int(o.offset), bytes(o.file_data), view)
 
     def _expected(self, cfg, p):
         md = p.get("md")
